@@ -19,7 +19,7 @@ import (
 //
 // events: send <pid> | rx rind <pid> | rx rbusy <wait> <ctrl> | rx rlost <k> | rx other | read | close |
 //
-//	sockfail <0|1> | end
+//	sockfail <0|1> | failpid <pid> <0|1> | end
 func runRouterScript(t *testing.T, line string) (trace string) {
 	parts := strings.SplitN(line, ":", 2)
 	head := strings.Fields(parts[0])
@@ -120,6 +120,14 @@ func runRouterScript(t *testing.T, line string) (trace string) {
 			case "sockfail":
 				sock.mu.Lock()
 				sock.failing = ev.toks[1] == "1"
+				sock.mu.Unlock()
+			case "failpid":
+				pid, _ := strconv.Atoi(ev.toks[1])
+				sock.mu.Lock()
+				if sock.failPids == nil {
+					sock.failPids = map[int]bool{}
+				}
+				sock.failPids[pid] = len(ev.toks) < 3 || ev.toks[2] == "1"
 				sock.mu.Unlock()
 			case "end":
 				synctest.Wait()
